@@ -190,6 +190,16 @@ int main() {
                 std::string s = t[1] == "write" ? unhex(t[2]) : std::string(static_cast<size_t>(atoll(t[3].c_str())), static_cast<char>(strtoul(t[2].c_str(), nullptr, 16)));
                 g_w->write(s.data(), s.size()); OUT("ok");
             }
+            else if (t[0] == "W" && t[1] == "writepat") {      // W writepat <cnt|mix> <seed> <n>: n bytes of 32-bit little-endian words, word i = i + seed | i * 0x9E3779B1 + seed
+                uint32_t seed = static_cast<uint32_t>(strtoul(t[3].c_str(), nullptr, 10)); size_t n = static_cast<size_t>(atoll(t[4].c_str()));
+                std::string s((n + 3) / 4 * 4, '\0');
+                for (size_t i = 0; i * 4 < s.size(); i++) {
+                    uint32_t w = t[2] == "cnt" ? static_cast<uint32_t>(i) + seed : static_cast<uint32_t>(i) * 0x9E3779B1u + seed;
+                    s[4 * i] = static_cast<char>(w & 0xff); s[4 * i + 1] = static_cast<char>((w >> 8) & 0xff); s[4 * i + 2] = static_cast<char>((w >> 16) & 0xff); s[4 * i + 3] = static_cast<char>(w >> 24);
+                }
+                s.resize(n);
+                g_w->write(s.data(), s.size()); OUT("ok");
+            }
             else if (t[0] == "W" && t[1] == "rot") {
                 std::string budget = t.size() > 3 ? t[3] : "";
                 if (g_named) { if (!budget.empty()) g_budget["out" + t[2] + g_ext + ".part"] = atoll(budget.c_str()); g_w->rotate_output(std::string(g_dir + "/out" + t[2])); }
@@ -206,6 +216,15 @@ int main() {
                 OUT("ok");
             }
             else if (t[0] == "X" && t[1] == "qr") { std::size_t r = g_x->buffer_qr(mk_qr(unhex(t[2]), strtoull(t[3].c_str(), nullptr, 10))); OUT("r %zu", r); }
+            else if (t[0] == "X" && t[1] == "aec") {     // X aec <address hex> <type> <count>
+                GenericAddressEventCount a; a.ip_address = unhex(t[2]); a.ae_type = static_cast<AddressEventTypeValues>(atoi(t[3].c_str())); a.ae_count = strtoull(t[4].c_str(), nullptr, 10);
+                std::size_t r = g_x->buffer_aec(a); OUT("r %zu", r);
+            }
+            else if (t[0] == "X" && t[1] == "mm") {      // X mm <payload hex> <n>
+                uint64_t n = strtoull(t[3].c_str(), nullptr, 10);
+                GenericMalformedMessage m; m.ts = Timestamp(1600000000 + n, 0); m.client_ip = std::string("\x0a\x00\x00\x02", 4); m.client_port = static_cast<uint16_t>(n); m.mm_payload = unhex(t[2]);
+                std::size_t r = g_x->buffer_mm(m); OUT("r %zu", r);
+            }
             else if (t[0] == "X" && t[1] == "wb") { std::size_t r = g_x->write_block(); OUT("r %zu", r); }
             else if (t[0] == "X" && t[1] == "rot") {
                 std::string budget = t.size() > 4 ? t[4] : ""; std::size_t r;
